@@ -194,6 +194,23 @@ def singleton_by_value_into_generic_constructor(spec, m):
     return any(c.get("generic_param") and any(mo == "val" and t in singles for (t, mo) in c["ins"]) for c in spec["ctors"].values())
 
 
+def type_request_time_in_parent_and_state_singleton_in_nested(spec, m):
+    """One type built by a request-scoped / transient constructor in a blueprint and by a singleton (or a prebuilt type /
+    configuration entry) in a blueprint nested inside it: the application-state graph resolves the nested singleton's
+    type in the root scope and finds the request-time constructor."""
+    for s_, regs in m.ctor_regs.items():
+        for (_p, cid, _o) in regs:
+            c = spec["ctors"][cid]
+            if c["lc"] != "singleton" or not s_:
+                continue
+            for anc in m.ancestors(s_)[1:]:
+                for (_p2, cid2, _o2) in m.ctor_regs[anc]:
+                    c2 = spec["ctors"][cid2]
+                    if c2["out"] == c["out"] and c2["lc"] != "singleton":
+                        return True
+    return False
+
+
 # (substring of the normalised panic location, substring of the message) -> (pattern name, predicate)
 KNOWN_PANIC_PATTERNS = [
     ("compiler/codegen_utils.rs", "There is no variable with type", "singleton_by_value_into_generic_constructor", singleton_by_value_into_generic_constructor),
@@ -203,6 +220,7 @@ KNOWN_PANIC_PATTERNS = [
     ("processing_pipeline/pipeline.rs", "invoked at most once", "request_scoped_override_with_inherited_mws", request_scoped_override_with_inherited_mws),
     ("user_components/router.rs", "All other domain guard errors", "guard_param_name_with_comment", guard_param_name_with_comment),
     ("user_components/router.rs", "entered unreachable code", "prefix_trailing_param_with_fallback", prefix_trailing_param_with_fallback),
+    ("call_graph/application_state.rs", "entered unreachable code", "type_request_time_in_parent_and_state_singleton_in_nested", type_request_time_in_parent_and_state_singleton_in_nested),
     ("matchit-", "subtract with overflow", "guard_with_param_rightmost_label", guard_with_param_rightmost_label),
 ]
 
